@@ -733,58 +733,190 @@ def _norm_expr(e):
     return k or "?"
 
 
+HEX_UPPER = "0123456789ABCDEF"
+HEXDIGITS = set(b"0123456789abcdefABCDEF")
+
+
+def _next_payloads(prog, b, d):
+    """Sub-descriptions of d that are the element taken out of `iter.next()` (directly or through `?`), keyed by the next() block."""
+    out = {}
+    for y in core.desc_subterms(d):
+        if y[0] != "field" or y[2] != 0 or not isinstance(y[1], tuple) or not y[1] or y[1][0] != "call":
+            continue
+        inner = y[1]
+        if inner[1].endswith("ops::Try>::branch") and inner[2] and isinstance(inner[2][0], tuple) and inner[2][0] and inner[2][0][0] == "call":
+            inner = inner[2][0]
+        if core.re.search(r"Iterator>?::next$", inner[1]) and len(inner) > 3:
+            out.setdefault(inner[3], y)
+    return out
+
+
+def percent_encode(chk, prog, orc, fn):
+    """Decided with R-BYTECLASS (hv/byteset.py): which byte values reach the `keep` site and which the `escape` site, and what the escape writes."""
+    from .. import byteset
+    b = prog.bodies[fn]
+    U = byteset.mask_of(lambda v: chr(v) in orc["unreserved"])
+    loops = [(blk, t) for blk, t in b.calls_to(r"Iterator>?::next$") if desc_contains(describe(prog, b, t["args"][0]), lambda y: y[0] == "param" and y[1] == 1)]
+    chk.floor("byte loop in percent_encode", len(loops), 1)
+    if len(loops) != 1:
+        return
+    var = ("field", describe(prog, b, loops[0][1]["dest"]["l"]), 0)
+    fl = byteset.ByteFlow(prog, b, var)
+    keep, esc_marker, esc_fmt, digits, unknown = [], [], [], [], []
+    for blk, t in b.calls():
+        name = t.get("resolved") or t.get("callee") or ""
+        if not core.re.search(r"string::String::(push|push_str|insert|insert_str|extend\w*)$|String as std::ops::AddAssign<&str>>::add_assign$|String as std::fmt::Write>::write_(str|char|fmt)$", name):
+            continue
+        arg = describe(prog, b, t["args"][-1])
+        m = fl.mask_at(blk)
+        if name.endswith("String::push") or name.endswith("write_char"):
+            if fl.is_alias_desc(arg):
+                keep.append((blk, m))
+            elif arg == ("lit", 37):
+                esc_marker.append((blk, m))
+            else:
+                digits.append((blk, m, arg))
+            continue
+        fsites = [c[3] for c in core.desc_calls(arg) if "fmt::Arguments" in c[1] and len(c) > 3]
+        parts = fmt.format_parts(b, fsites[0]) if fsites else None
+        specs = fmt.format_specs(b, fsites[0]) if fsites else None
+        if parts and specs and len(parts) == 2 and parts[0] == ("lit", "%") and parts[1][0] == "arg" and len(specs) == 1:
+            ad = describe(prog, b, parts[1][1]) if parts[1][1] is not None else None
+            sp = specs[0]
+            good = ad is not None and fl.is_alias_desc(ad) and (parts[1][2] or "").endswith("new_upper_hex") and sp["width"] == 2 and \
+                sp["flags"] is not None and sp["flags"] & fmt.ZERO_PAD_FLAG and not sp["flags"] & fmt.ALTERNATE_FLAG
+            esc_fmt.append((blk, m, good, f"{parts} {specs}"))
+        else:
+            unknown.append((blk, name.split("::")[-1], core.short(str(arg))[:80]))
+    show = lambda m: "".join(chr(v) if 32 < v < 127 else "." for v in byteset.members(m))
+    chk.ob("R1.percent", fn, "every write to the output is a kept byte, a '%' or an escape digit", not unknown and fl.converged, f"unrecognised writes: {unknown}")
+    chk.floor("verbatim write in percent_encode", len(keep), 1)
+    chk.floor("escape write in percent_encode", len(esc_marker) + len(esc_fmt), 1)
+    km = 0
+    for blk, m in keep:
+        km |= m
+        chk.ob("R1.percent", fn, "a byte is kept verbatim only if it is in the unreserved set", m & ~U == 0,
+               f"kept verbatim although reserved: {show(m & ~U)!r}", where=b.where(blk))
+    em = 0
+    for blk, m in esc_marker + [(x[0], x[1]) for x in esc_fmt]:
+        em |= m
+        chk.ob("R1.percent", fn, "an unreserved byte is never escaped", m & U == 0, f"escaped although unreserved: {show(m & U)!r}", where=b.where(blk))
+    chk.ob("R1.percent", fn, "unreserved set equals RFC 3986 §2.3 (kept = unreserved, escaped = everything else)", km == U and em == byteset.ALL & ~U,
+           f"kept {show(km)!r}; escaped {len(byteset.members(em))} values")
+    for blk, m, good, what in esc_fmt:
+        chk.ob("R1.percent", fn, "escapes are written as '%' + two hex digits", good, f"escape template {what}: not '%' followed by the byte as {{:02X}}", where=b.where(blk))
+    for blk, m in esc_marker:
+        after = [(db, dm, da) for db, dm, da in digits if b.dominates(blk, db)]
+        after.sort(key=lambda x: sum(1 for y in after if b.dominates(y[0], x[0])))
+        ok = len(after) == 2
+        detail = f"{len(after)} digit write(s) after the '%'"
+        if ok:
+            for (db, dm, da), pick in zip(after, (lambda v: v >> 4, lambda v: v & 15)):
+                for v in byteset.members(m):
+                    got = fl.eval(da, v)
+                    if got != ord(HEX_UPPER[pick(v)]):
+                        ok = False
+                        detail = f"byte {v:#04x}: digit written is {got!r}, expected {HEX_UPPER[pick(v)]!r}"
+                        break
+                if not ok:
+                    break
+        chk.ob("R1.percent", fn, "escapes are written as '%' + two hex digits", ok, detail, where=b.where(blk))
+    loose = [db for db, dm, da in digits if not any(b.dominates(mb, db) for mb, _ in esc_marker)]
+    chk.ob("R1.percent", fn, "no character is written outside keep / escape", not loose, f"writes at blocks {loose}")
+
+
+def percent_decode(chk, prog, orc, fn):
+    from .. import byteset
+    b = prog.bodies[fn]
+    nexts = [(blk, t) for blk, t in b.calls_to(r"Iterator>?::next$")]
+    pushes = [(blk, t) for blk, t in b.calls_to(r"vec::Vec::<T, A>::(push|extend_from_slice|insert)$")]
+    chk.floor("output writes in percent_decode", len(pushes), 2)
+    # the loop byte: the next() whose element is pushed as it is
+    lit_sites, esc_sites = [], []
+    for blk, t in pushes:
+        arg = describe(prog, b, t["args"][-1])
+        pl = _next_payloads(prog, b, arg)
+        if byteset.strip_conv(arg) in pl.values():
+            lit_sites.append((blk, arg))
+        else:
+            esc_sites.append((blk, arg, pl))
+    chk.floor("literal copy site in percent_decode", len(lit_sites), 1)
+    chk.floor("escape decode site in percent_decode", len(esc_sites), 1)
+    if not lit_sites or not esc_sites:
+        return
+    main = byteset.strip_conv(lit_sites[0][1])
+    fl = byteset.ByteFlow(prog, b, main)
+    show = lambda m: "".join(chr(v) if 32 < v < 127 else "." for v in byteset.members(m))
+    for blk, arg in lit_sites:
+        m = fl.mask_at(blk)
+        chk.ob("R3.percent_decode", fn, "every byte except '%' is copied as it is", byteset.strip_conv(arg) == main and m == byteset.ALL & ~(1 << 37),
+               f"copied literally for {len(byteset.members(m))} byte values ({'%' if m >> 37 & 1 else 'without %'}); missing: {show(byteset.ALL & ~(1 << 37) & ~m)!r}", where=b.where(blk))
+    hexmask = byteset.mask_of(lambda v: v in HEXDIGITS)
+    for blk, arg, pl in esc_sites:
+        m = fl.mask_at(blk)
+        chk.ob("R3.percent_decode", fn, "an escape is decoded only after '%'", m == 1 << 37, f"escape site reached for {show(m)!r}", where=b.where(blk))
+        digs = [pl[k] for k in sorted(pl) if byteset.strip_conv(pl[k]) != main]
+        # order: the digit read first is the high one
+        digs.sort(key=lambda d: sum(1 for e in digs if e is not d and b.dominates(next(k for k in pl if pl[k] is e), next(k for k in pl if pl[k] is d))))
+        if len(digs) != 2:
+            chk.ob("R3.hex_gate", fn, "the decoded byte is computed from the two characters after '%'", False, f"{len(digs)} characters feed the decoded byte", where=b.where(blk))
+            continue
+        fh, fl2 = byteset.ByteFlow(prog, b, digs[0]), byteset.ByteFlow(prog, b, digs[1])
+        mh, ml = fh.mask_at(blk), fl2.mask_at(blk)
+        chk.ob("R3.hex_gate", fn, "both characters after '%' are tested with is_ascii_hexdigit before from_str_radix", mh & ~hexmask == 0 and ml & ~hexmask == 0,
+               f"decoded although not hex digits: first {show(mh & ~hexmask)[:20]!r} second {show(ml & ~hexmask)[:20]!r}: \"%+f\" would decode", where=b.where(blk))
+        chk.ob("R3.percent_decode", fn, "every pair of hex digits (either case) is decoded", mh == hexmask and ml == hexmask,
+               f"accepted first digits {show(mh)!r}, second {show(ml)!r}", where=b.where(blk))
+        # value: either std's from_str_radix(.., 16) over the two characters in order, or an expression decided for all 22 x 22 pairs
+        radix = [c for c in core.desc_calls(arg) if c[1].endswith("from_str_radix")]
+        if radix:
+            c = radix[0]
+            fsites = [x[3] for x in core.desc_calls(c[2][0]) if "fmt::Arguments" in x[1] and len(x) > 3]
+            parts = fmt.format_parts(b, fsites[0]) if fsites else None
+            specs = fmt.format_specs(b, fsites[0]) if fsites else None
+            okf = False
+            what = f"{parts}"
+            if parts and len(parts) == 2 and all(p[0] == "arg" and (p[2] or "").endswith("new_display") for p in parts) and specs and all(sp["flags"] is None and sp["width"] is None for sp in specs):
+                ds = [byteset.strip_conv(describe(prog, b, p[1])) if p[1] is not None else None for p in parts]
+                okf = ds[0] == byteset.strip_conv(digs[0]) and ds[1] == byteset.strip_conv(digs[1])
+            else:
+                # from_utf8 / slice of the two bytes
+                sub = core.desc_subterms(c[2][0])
+                arr = [y for y in sub if y[0] == "array" and len(y[1]) == 2]
+                if arr:
+                    ds = [byteset.strip_conv(x) for x in arr[0][1]]
+                    okf = ds[0] == byteset.strip_conv(digs[0]) and ds[1] == byteset.strip_conv(digs[1])
+                    what = f"array {[core.short(str(x))[:40] for x in ds]}"
+            chk.ob("R3.hex_gate", fn, "the decoded byte is from_str_radix(<first><second>, 16)", okf and c[2][1] == ("lit", 16), f"text parsed: {what}; radix {c[2][1]}", where=b.where(blk))
+            chk.ob("R3.hex_gate", fn, "radix is 16", c[2][1] == ("lit", 16), "")
+        else:
+            bad = None
+            for h in byteset.members(mh & hexmask):
+                for l in byteset.members(ml & hexmask):
+                    got = fh.eval(arg, h, others=[(fl2, l)])
+                    want = int(chr(h), 16) * 16 + int(chr(l), 16)
+                    if got != want:
+                        bad = (chr(h), chr(l), got, want)
+                        break
+                if bad:
+                    break
+            chk.ob("R3.hex_gate", fn, "the decoded byte is 16 * value(first) + value(second)", bad is None and bool(mh & hexmask) and bool(ml & hexmask),
+                   f"%{bad[0]}{bad[1]} decodes to {bad[2]!r}, expected {bad[3]}" if bad else "no hex digits reach the site", where=b.where(blk))
+
+
 def percent(chk, prog, orc):
     u = core.const_value(prog, "humphrey::percent::UNRESERVED_CHARACTERS")
-    s = None
     if u and u[0] == "lit":
         s = u[1].decode() if isinstance(u[1], bytes) else u[1]
-    else:
-        h = prog.hir.get("humphrey::percent::UNRESERVED_CHARACTERS")
-        if h:
-            for n in hir_walk(h["body"]):
-                if n.get("e") == "Lit" and n.get("t") == "bytes":
-                    s = bytes(n["v"]).decode()
-    chk.ob("R1.percent", "humphrey::percent::UNRESERVED_CHARACTERS", "unreserved set equals RFC 3986 §2.3", s is not None and sorted(s) == sorted(orc["unreserved"]), f"{s!r}")
+        chk.ob("R1.percent", "humphrey::percent::UNRESERVED_CHARACTERS", "unreserved table equals RFC 3986 §2.3", sorted(s) == sorted(orc["unreserved"]), f"{s!r}")
     dec = [p for p in prog.bodies if p.endswith("PercentDecode>::percent_decode")]
     enc = [p for p in prog.bodies if p.endswith("PercentEncode>::percent_encode")]
     chk.floor("percent_decode fn", len(dec), 1)
     chk.floor("percent_encode fn", len(enc), 1)
     if enc:
-        b = prog.bodies[enc[0]]
-        lits = fmt.format_literals(b)
-        chk.ob("R1.percent", enc[0], "escapes are written as '%' + two hex digits", any(l == "%" for l in lits), f"{lits}")
-        cs = b.calls_to(r"slice::<impl \[T\]>::contains$")
-        chk.ob("R1.percent", enc[0], "a byte is kept verbatim only if it is in the unreserved set", any(desc_contains(core.describe(prog, b, t["args"][0]), lambda y: y[0] in ("lit", "const") or True) for _, t in cs) and bool(cs), "")
+        percent_encode(chk, prog, orc, enc[0])
     if dec:
-        b = prog.bodies[dec[0]]
-        n = 0
-        for blk, t in b.calls_to(r"num::<impl u8>::from_str_radix$"):
-            n += 1
-            hx = core.describe(prog, b, t["args"][0])
-            # the two characters formatted into the string
-            fb = [c[3] for c in core.desc_calls(hx) if "fmt::Arguments" in c[1]]
-            parts = fmt.format_parts(b, fb[0]) if fb else None
-            digs = [panics._strip(core.describe(prog, b, p[1])) for p in (parts or []) if p[0] == "arg"]
-            tested = []
-            for (a, op, r) in panics.cmp_facts(prog, b, blk):
-                if isinstance(a, tuple) and a and a[0] == "pred":
-                    pass
-            for cond, truth in panics.bool_facts(prog, b, blk):
-                c = cond
-                pol = truth
-                while isinstance(c, tuple) and c and c[0] == "un" and c[1] == "Not":
-                    pol = not pol
-                    c = c[2]
-                if isinstance(c, tuple) and c and c[0] == "call" and c[1].endswith("is_ascii_hexdigit") and pol:
-                    tested.append(panics._strip(c[2][0]))
-            def base(d):
-                # `x as char` / copies
-                return d
-            ok = len(digs) == 2 and all(any(_same_digit(t_, d) for t_ in tested) for d in digs)
-            chk.ob("R3.hex_gate", dec[0], "both characters after '%' are tested with is_ascii_hexdigit before from_str_radix", ok,
-                   f"from_str_radix gets {[panics.short_desc(d) for d in digs]}, hex-digit tests on {[panics.short_desc(t_) for t_ in tested]}: \"%+f\" would decode", where=b.where(blk))
-            chk.ob("R3.hex_gate", dec[0], "radix is 16", core.describe(prog, b, t["args"][1]) == ("lit", 16), "")
-        chk.floor("from_str_radix site in percent_decode", n, 1)
+        percent_decode(chk, prog, orc, dec[0])
 
 
 def _same_digit(tested, dig):
